@@ -106,6 +106,14 @@ for _p in list(THEOREMS):
             if _x not in OBLIG_BY_PROP.setdefault(_p, []):
                 OBLIG_BY_PROP[_p].append(_x)
 
+# bundle M (tools/props/math_thm_M.py): MathUtilities.h + TransitEventBuffer constructor / index arithmetic, attached to C03
+import props.math_thm_M as _mM
+if THEOREMS.get("C03"):
+    _mM.attach("C03", THEOREMS["C03"], MODULES["C03"], OBLIG_BY_PROP.setdefault("C03", []))
+    for _x in _mM.OBLIG_BY_PROP["C03"]:
+        if _x not in OBLIG:
+            OBLIG.append(_x)
+
 # a property is claimed in MANIFEST.json only once its theorem file exists
 _ALL_MANIFEST = MANIFEST
 MANIFEST = {p: d for p, d in _ALL_MANIFEST.items() if THEOREMS.get(p)}
@@ -119,10 +127,11 @@ ORACLE_ONLY = {2: "UnboundedBlocking", 3: "UnboundedDropping"}
 def params_line(ex):
     b = ex.get("backend", {})
     q = ex.get("bounded", {})
-    return "params drain=%d invalidBits=%d refreshAfterSample=%d catchAll=%d batchPct=%d reportFlush=%d keepUnreported=%d flushInvalid=%d" % (
+    return "params drain=%d invalidBits=%d refreshAfterSample=%d catchAll=%d batchPct=%d reportFlush=%d keepUnreported=%d flushInvalid=%d replayCatch=%d" % (
         1 if q.get("drainPublish", True) else 0, b.get("invalidBits", 32), 1 if b.get("refreshAfterSample", True) else 0,
         1 if b.get("catchAllFormat", True) else 0, q.get("defaultPercent", 5), 1 if b.get("reportBeforeFlushCleanup", True) else 0,
-        1 if b.get("cleanupKeepsUnreported", True) else 0, 0 if b.get("flushOnlyValidLoggers", False) else 1)
+        1 if b.get("cleanupKeepsUnreported", True) else 0, 0 if b.get("flushOnlyValidLoggers", False) else 1,
+        1 if b.get("replayCatchesPerEvent", True) else 0)
 
 
 def run_script(hbin, name, lines, workdir):
@@ -464,6 +473,9 @@ def run(prop, tier):
                              "the real TransitEventBuffer is not a FIFO / disagrees with the model: %s" % (tor or tmm or ["abort rc=%d: %s" % (rct, outt[-300:])])[0][:300],
                              no_input=not (tor or rct not in (0, 3)))
 
+    if prop == "C03":
+        _mM.stream(ck, prop, tier, ps)   # arithmetic / constructor stream of bundle M (ck.cov["math_stream"])
+
     spin = None
     if prop == "C17":
         # the registries' spinlock under the atomic shim: race detector on the protected datum + run-time orders
@@ -596,6 +608,8 @@ def replay_filt(prop, path, first):
 
 def replay(prop, path):
     first = open(path).readline().strip()
+    if _mM.is_math_replay(path):
+        return _mM.replay(prop, path)
     if first.startswith(FILT_TAG):
         return replay_filt(prop, path, first)
     if "filesink" in open(path).readline():
